@@ -102,6 +102,8 @@ class FsMonitor:
         elif event in _MUT_EVENTS:
             self.seq += 1
             paths = [self._abs(a) for a in args[:2] if isinstance(a, (str, bytes, os.PathLike))]
+            if event in ("shutil.copyfile", "shutil.copymode", "shutil.copystat", "os.link", "os.symlink") and len(paths) > 1:
+                paths = [paths[1]]  # only the destination is mutated; the first argument is merely read / pointed to
             self.events.append({"seq": self.seq, "pid": os.getpid(), "ev": event, "path": paths[0] if paths else None,
                                 "path2": paths[1] if len(paths) > 1 else None})
 
@@ -117,7 +119,7 @@ def eacces(path):
 # M-snap
 
 
-def snapshot(root, with_mtime=True) -> dict:
+def snapshot(root, with_mtime=True, with_ctime=False) -> dict:
     """{relpath: (type, size, mode, mtime_ns, sha1 | link target)} for everything below root."""
     root = str(root)
     out = {}
@@ -139,7 +141,8 @@ def snapshot(root, with_mtime=True) -> dict:
                         h = hashlib.sha1(fp.read()).hexdigest()
                 except OSError:
                     h = "?"
-                out[rel] = ("f", st.st_size, stat.S_IMODE(st.st_mode), st.st_mtime_ns if with_mtime else 0, h)
+                out[rel] = ("f", st.st_size, stat.S_IMODE(st.st_mode), st.st_mtime_ns if with_mtime else 0, h) + (
+                    (st.st_ctime_ns,) if with_ctime else ())
             else:
                 out[rel] = ("o", 0, stat.S_IMODE(st.st_mode), 0, "")
     return out
